@@ -319,14 +319,14 @@ def run(ctx):
             h = json.load(open(os.path.join(cdir, f)))["history"]
             h["id"] = 100000 + i
             hs.insert(0, h)
-    results = C.pmap(run_history, [(h, ctx.scratch) for h in hs], nproc=8 if ctx.quick() else 12, job_timeout=180)
+    results = C.pmap(run_history, [(h, ctx.scratch) for h in hs], nproc=8 if ctx.quick() else 12, job_timeout=60)
     by_id = {h["id"]: h for h in hs}
     # a history whose worker process crashed (segfault / abort in native code) or hung: find the shortest crashing prefix and
     # report it as a failing input - the dataset cannot be read back at all
     crashed = [(h, r) for h, r in zip(hs, results) if isinstance(r, dict) and "__crashed__" in r]
     for h, r in crashed[:5]:
         pre = [{"id": h["id"] * 10 + n, "pcols": h["pcols"], "ops": h["ops"][:n]} for n in range(1, len(h["ops"]) + 1)]
-        rr = C.pmap(run_history, [(x, ctx.scratch) for x in pre], nproc=4, job_timeout=180)
+        rr = C.pmap(run_history, [(x, ctx.scratch) for x in pre], nproc=4, job_timeout=60)
         bad = [x for x, y in zip(pre, rr) if isinstance(y, dict) and "__crashed__" in y]
         hh = bad[0] if bad else h
         o = hh["ops"][-1]
